@@ -20,7 +20,7 @@ const (
 )
 
 var c11Chars = []string{"a", "b", "x", "-", "é"}
-var c11Delims = [][3]string{{"${", "}", ":"}, {"<<", ">>", "|"}, {"%(", ")", "="}, {"[[", "]", "::"}, {"@", "#", "~"}}
+var c11Delims = [][3]string{{"${", "}", ":"}, {"<<", ">>", "|"}, {"%(", ")", "="}, {"[[", "]", "::"}, {"@", "#", "~"}, {"«", "»", "→"}}
 
 func (t rtoks) key() string { return fmt.Sprint([]rtok(t)) }
 
